@@ -197,6 +197,29 @@ fn scenario<C: MlsConfig>(rng: &mut Rng, mk: Mk<C>, out: &mut Out, qa_mem: &mut 
                 out.cover.insert(format!("q:{q_state}"));
             }
         }
+        // out of order inside the new epoch: P sends two application messages, the subjects receive only the second one now
+        // (the first goes to the pool of late messages), so their ratchets hold a skipped key when they are written / reloaded
+        if rng.chance(1, 2) {
+            let ep_now = w.group(0).current_epoch();
+            let (_, m_a) = w.with_group(0, |g| g.encrypt_application_message(b"skipped", vec![]));
+            let (_, m_b) = w.with_group(0, |g| g.encrypt_application_message(b"first-delivered", vec![]));
+            if let (Some(m_a), Some(m_b)) = (m_a, m_b) {
+                for i in [1usize, 2] {
+                    if w.members[i].group.is_some() {
+                        let mm = m_b.clone();
+                        let (r, _) = w.with_group(i, |g| g.process_incoming_message(mm));
+                        if !r.ok() {
+                            out.fails.push(("C05".into(), format!("subject {i} cannot read an application message that overtook another one: {}", r.s())));
+                        }
+                    }
+                }
+                // the never-reloaded twin of subject 1 sees the same traffic
+                let _ = twin.process_incoming_message(m_b.clone());
+                pool.entry(ep_now).or_default().push(m_a.clone());
+                pool.entry(ep_now).or_default().push(m_a);
+                out.cover.insert("skipped-generation-before-write".into());
+            }
+        }
         // the side groups advance and are written; their stored prior epochs are recorded
         for i in [1usize, 2] {
             if let Some(g) = side.get_mut(&i) {
@@ -280,6 +303,46 @@ fn scenario<C: MlsConfig>(rng: &mut Rng, mk: Mk<C>, out: &mut Out, qa_mem: &mut 
                         }
                     }
                     Err(e) => out.fails.push(("C06".into(), format!("{tag}: cannot load the written group: {}", err_class(&e)))),
+                }
+            }
+        }
+        // provider level: a write whose epoch part cannot succeed (an insert of an epoch id that is already stored) must not
+        // store its snapshot part either -- a failed write changes nothing
+        if rng.chance(1, 3) {
+            // (only on the SQLite subject: the in-memory provider has no uniqueness constraint and simply appends)
+            for (i, tag) in [(2usize, "sql")] {
+                if w.members[i].group.is_none() || !written.contains_key(&i) || !w.members[i].setup.sqlite {
+                    continue;
+                }
+                let gid = w.group(i).group_id().to_vec();
+                let ids = stored_ids(&w, i);
+                let Some(&dup) = ids.first() else { continue };
+                let before_state = w.members[i].h.store.state(&gid).ok().flatten().map(|z| z.to_vec());
+                let before_epoch = w.members[i].h.store.epoch(&gid, dup).ok().flatten().map(|z| z.to_vec());
+                let mut store = w.members[i].h.store.clone();
+                let poisoned = mls_rs_core::group::GroupState { id: gid.clone(), data: zeroize::Zeroizing::new(b"poisoned-snapshot".to_vec()) };
+                let r = store.write(poisoned, vec![mls_rs_core::group::EpochRecord::new(dup, zeroize::Zeroizing::new(b"poisoned-epoch".to_vec()))], vec![]);
+                out.cases += 1;
+                let after_state = w.members[i].h.store.state(&gid).ok().flatten().map(|z| z.to_vec());
+                let after_epoch = w.members[i].h.store.epoch(&gid, dup).ok().flatten().map(|z| z.to_vec());
+                match r {
+                    Err(_) => {
+                        if after_state != before_state || after_epoch != before_epoch {
+                            out.fails.push(("C06".into(), format!("{tag}: a storage write that failed (duplicate epoch {dup}) still changed the stored {}", if after_state != before_state { "snapshot" } else { "epoch record" })));
+                        }
+                        out.cover.insert(format!("failed-write:{tag}:rejected"));
+                    }
+                    Ok(()) => {
+                        // the provider accepted the duplicate: put the genuine records back so that the scenario continues
+                        out.cover.insert(format!("failed-write:{tag}:accepted"));
+                        if let (Some(s0), Some(e0)) = (before_state, before_epoch) {
+                            let _ = store.write(
+                                mls_rs_core::group::GroupState { id: gid.clone(), data: zeroize::Zeroizing::new(s0) },
+                                vec![],
+                                vec![mls_rs_core::group::EpochRecord::new(dup, zeroize::Zeroizing::new(e0))],
+                            );
+                        }
+                    }
                 }
             }
         }
